@@ -34,6 +34,24 @@ CLAIMED = {
              "load buffering), stores append to the modification order; the ownership discipline given to RAOwn comes from the SC "
              "protocol models; hardware/compiler behaviour is not observed; TSan is used only to look for a failing run. Partial: "
              "covers the hand-off words named in the property's anchors, not arbitrary client programs over the whole API."),
+    "C03": dict(
+        text="Lifetime model of a pipeline of any length (Own.v: construction, attach, functor call, caller release, functor "
+             "destruction, publication, final release, for every interleaving of the chain-building consumer with the firing chain, "
+             "whether callbacks run, are skipped, throw or are dropped by a rejecting executor): proved that nothing is touched after "
+             "release, cores are released only after publication, at quiescence every core is released and every functor destroyed "
+             "exactly once, no functor invoked twice; plus the Future/Promise state layer (released exactly once for every consumer "
+             "kind, nothing read after release: Handoff) and the reference-count layer (any number of owners, destroyed at most once "
+             "and after all accesses under release/acquire: RACounter). Tied to the code by replaying every distinct trace of real "
+             "pipelines of instrumented functors/values (4 sources x 4 endings x 3 attach modes x 3 functor kinds per step, producer "
+             "racing the consumer; exhaustive for one step) through Own.run and comparing counts; the harness oracle checks instance "
+             "construction/destruction balance, use-after-destruction and allocation balance at quiescence on every execution; the "
+             "thorough tier repeats under ASan/UBSan.",
+        design="DESIGN.md §5 C03, §10",
+        technique="Coq invariant proofs over lifetime/ownership models + trace correspondence + sanitizer-backed exploration",
+        note="Trusted: Coq kernel + vm_compute; trace mapping and instrumentation of harness/h_c03.cpp; FIBER backend; ASan/UBSan. "
+             "Partial: the harness covers unique-future pipelines; combinators, shared states, coroutine frames and executor jobs are "
+             "covered by the Handoff/RACounter theorems and by the oracles of the C06/C07/C08/C09/C13 checks, not re-run here; heap "
+             "misuse invisible to instance tracking, allocation balance and ASan is not detected."),
 }
 
 PENDING = {}
